@@ -92,6 +92,10 @@ def opCkt (args : List String) : String :=
         ((if h == "1" then some (⟨parseF zr, parseF zi⟩ : CF) else none), cxOfReal (parseF l)) :: go n r
       | _, _ => []
     showC (distImpedance (go (parseN nh) rest))
+  | ["distloads", owner, g0, g1, flags] =>
+    -- which per-object loads list the pulse; flags: one char per object, '1' = loaded
+    let loaded := fun k => flags.toList[k]? == some '1'
+    " ".intercalate ((distLoadsOf (parseN owner) (parseN g0) (parseN g1) loaded).map toString)
   | _ => "bad-op"
 
 end Driver
